@@ -109,6 +109,15 @@ def one(ctx, w, cfg, use_strace):
             if (s2.st_ino, s2.st_mtime_ns, s2.st_ctime_ns) != (ino, mt, ct):
                 probs.append("%r is named by no patch but was re-created or written (inode %d -> %d)" % (r, ino, s2.st_ino))
     snap = "EXIT %s | %s" % (rc, l3gen.canon_snapshot(ws.snapshot(d, skip=("patches",))))
+    # what became of the inode behind each name of the start tree: S same, N another one, G name gone (the twin keeps
+    # every old inode alive, so a new file can not be given the number of the one it replaces)
+    fate = {}
+    for r, (data, mode, ino, mt, ct) in before.items():
+        try:
+            fate[r] = "S" if os.lstat(os.path.join(d.encode(), r)).st_ino == ino else "N"
+        except OSError:
+            fate[r] = "G"
+    one.last_fate = fate
     shutil.rmtree(twin, ignore_errors=True)
     ws.cleanup(d)
     return snap, probs, calls, d
@@ -131,12 +140,57 @@ def ops_of_calls(calls, root):
     return res
 
 
+def inode_correspondence(ctx, cases, reals, fates):
+    """HardLinks.v against the kernel: the model's operation log, run by the extracted HardLinks.irun on the start tree
+    with one inode number per file, says for each name whether it ends on its old inode, on a fresh one or unbound;
+    st_ino of the binary's run must say the same.  HardLinks.nrun must accept the log (C15_log_is_truthful, evaluated).
+    Only where model tree = binary tree (anything else is the tree correspondence's business)."""
+    model = ctx.model([l3gen.model_line(w, c) for w, c in cases])
+    hist = ctx.coverage.setdefault("input_histogram", collections.Counter())
+    n_cmp = n_names = n_bad = 0
+    for (w, cfg), m, real, fate in zip(cases, model, reals, fates):
+        pred, truthful = l3gen.model_inodes(m)
+        if pred is None or l3gen.model_err(m) == "outofmodel":
+            continue
+        if truthful is False:
+            ctx.violation({"kind": "proof-instance-failed", "theorem": "C15_log_is_truthful",
+                           "detail": "HardLinks.nrun rejects the operation log the model wrote", "workspace": l3common.ws_json(w),
+                           "cfg": l3common.cfg_json(cfg)}, no_input=True)
+            continue
+        if real != l3gen.strip_err(m):
+            continue
+        n_cmp += 1
+        diffs = {}
+        for name, v in pred.items():
+            if name in fate:
+                n_names += 1
+                hist["inode fate " + v] += 1
+                if fate[name] != v:
+                    if cfg["threads"] > 1 and v == "S" and fate[name] == "N" and name in named_files(ctx, w):
+                        # the parallel driver also saves files that only patches beyond the failing one name: workers ran
+                        # ahead, were rolled back, and the unchanged file is written again - as a fresh inode, which is all
+                        # the property asks of a file the pushed range names; the sequential model never loads such a file
+                        hist["re-saved unchanged by the parallel driver"] += 1
+                        continue
+                    diffs[name.decode("latin-1")] = {"model": v, "binary": fate[name]}
+        if diffs:
+            n_bad += 1
+            if n_bad <= 2:
+                ctx.violation({"kind": "correspondence-mismatch",
+                               "correspondence": "inode fate per name: HardLinks.irun on the model's operation log vs st_ino after the binary's run "
+                                                 "(S same inode, N another inode, G name gone)",
+                               "names": dict(list(diffs.items())[:6]), "workspace": l3common.ws_json(w), "cfg": l3common.cfg_json(cfg),
+                               "args": l3gen.cfg_args(cfg)}, no_input=True)
+    ctx.coverage["inode_fates_compared_runs"] = n_cmp
+    ctx.coverage["inode_fates_compared_names"] = n_names
+
+
 def run(ctx):
     rng = ctx.rng
     thorough = ctx.tier == "thorough"
     n = 500 if thorough else 100
     hist = ctx.coverage.setdefault("input_histogram", collections.Counter())
-    cases, reals = [], []
+    cases, reals, fates = [], [], []
     bad = 0
     n_trace = 0
     for i in range(n):
@@ -164,6 +218,7 @@ def run(ctx):
         if "--mmap" not in cfg["extra"]:
             cases.append((w, cfg))
             reals.append(snap)
+            fates.append(one.last_fate)
         if use_strace and calls is not None and cfg["threads"] == 1:
             # the model's operation log vs the system calls, per tracked path
             m = ctx.model([l3gen.model_line(w, cfg)])[0]
@@ -191,6 +246,7 @@ def run(ctx):
             if bad <= 2:
                 ctx.violation({"kind": "edited-in-place", "problems": probs[:6], "workspace": l3common.ws_json(w),
                                "cfg": l3common.cfg_json(cfg), "args": l3gen.cfg_args(cfg)})
+    inode_correspondence(ctx, cases, reals, fates)
     ctx.coverage["twin_runs"] = n
     ctx.coverage["syscall_traces_compared_with_model_log"] = n_trace
     l3common.compare(ctx, cases, "trees after the twin runs", real_results=reals)
